@@ -5,7 +5,7 @@ from pathlib import Path
 ROOT = Path(__file__).resolve().parent.parent
 FILES = {
     "C01": ["C01"], "C02": ["C02"], "C03": ["C03"], "C04": ["C04"], "C05": ["C05"], "C06": ["C06"], "C07": ["C07"],
-    "C08": ["C08"], "C09": ["C09"], "C10": ["C10"], "C11": ["C11"], "C12": ["C12"], "C13": ["C13"], "C14": ["C14"],
+    "C08": ["C08"], "C09": ["C09", "C09DefHash"], "C10": ["C10"], "C11": ["C11"], "C12": ["C12"], "C13": ["C13"], "C14": ["C14"],
     "C15": ["C15"], "C16": ["C16"], "C17": ["C17"], "C18": ["C18", "C18Nested"], "C19": ["C19", "C19Compat"], "C20": ["C20"],
 }
 idx = {}
